@@ -188,8 +188,9 @@ theorem quantile_mono {xs : List Rat} (hne : xs ≠ []) {q q' : Rat} (h0 : 0 ≤
   · exact mul_nonneg h0 (by linarith)
   · exact mul_le_mul_of_nonneg_right h (by linarith)
 
-/-- every quantile lies between the sample minimum and maximum -/
-theorem min_le_quantile_le_max (xs : List Rat) (q : Rat) (h0 : 0 ≤ q) :
+/-- every quantile lies between the sample minimum and maximum (for every level: indices are
+clamped to the sample) -/
+theorem min_le_quantile_le_max (xs : List Rat) (q : Rat) :
     minimum xs ≤ quantile xs q ∧ quantile xs q ≤ maximum xs := by
   rw [quantile_eq_interp]
   have hs := sortRat_sorted xs
